@@ -261,10 +261,14 @@ func digestChain(c *core.Ctx) (bool, string) {
 					validated = true
 				}
 			}
-			if x, op, _, ok := facts.Cmp(cd); ok && op == token.NEQ {
+			// require&requireDigest != 0, or == requireDigest
+			if x, op, y, ok := facts.Cmp(cd); ok && (op == token.NEQ || op == token.EQL) {
 				if bo, isBo := x.(*ssa.BinOp); isBo && bo.Op == token.AND {
 					if k, isK := facts.ConstInt(bo.Y); isK && k == 2 {
-						requireChecked = true
+						rhs, isR := facts.ConstInt(y)
+						if (op == token.NEQ && isR && rhs == 0) || (op == token.EQL && isR && rhs == 2) {
+							requireChecked = true
+						}
 					}
 				}
 			}
@@ -676,6 +680,10 @@ func c18StatusGate(c *core.Ctx) {
 							gated = true
 						}
 					}
+					// a boolean accumulated over the accepted statuses (`expected = expected || status == s`)
+					if cd.Pos && trueImpliesStatusEq(cd.V, 4, map[ssa.Value]bool{}) {
+						gated = true
+					}
 					// slices.Contains(<accepted statuses>, resp.StatusCode) holds
 					if call, isCall := cd.V.(*ssa.Call); isCall && cd.Pos && facts.CalleeName(&call.Call) == "slices.Contains" && len(call.Call.Args) == 2 {
 						if _, fld, isF := facts.FieldOf(facts.Resolve(call.Call.Args[1])); isF && fld == "StatusCode" {
@@ -764,4 +772,52 @@ func trueOnlyUnderEquality(h *ssa.Function, pi int) bool {
 		}
 	}
 	return n > 0
+}
+
+// trueImpliesStatusEq: the boolean v can be true only if some equality test of
+// the response's StatusCode held: v is such a test, or a phi each of whose
+// incoming values is false, such a value, or `true` from a block under such a test.
+func trueImpliesStatusEq(v ssa.Value, depth int, seen map[ssa.Value]bool) bool {
+	if depth < 0 {
+		return false
+	}
+	if seen[v] {
+		return true // a loop-carried value: judged by its other incoming values
+	}
+	seen[v] = true
+	switch x := v.(type) {
+	case *ssa.BinOp:
+		if x.Op != token.EQL {
+			return false
+		}
+		for _, o := range []ssa.Value{x.X, x.Y} {
+			if _, fld, isF := facts.FieldOf(facts.Resolve(o)); isF && fld == "StatusCode" {
+				return true
+			}
+		}
+		return false
+	case *ssa.Phi:
+		for i, e := range x.Edges {
+			if cst, isC := e.(*ssa.Const); isC && cst.Value != nil {
+				if cst.Value.ExactString() == "false" {
+					continue
+				}
+				ok := false
+				for _, cd := range facts.CondsAt(x.Block().Preds[i]) {
+					if cd.Pos && trueImpliesStatusEq(cd.V, depth-1, seen) {
+						ok = true
+					}
+				}
+				if !ok {
+					return false
+				}
+				continue
+			}
+			if !trueImpliesStatusEq(e, depth-1, seen) {
+				return false
+			}
+		}
+		return len(x.Edges) > 0
+	}
+	return false
 }
